@@ -156,7 +156,7 @@ def gen_cases(ctx):
     # EDC: same local name with equal / different types
     for i in range(60 if ctx.quick() else 600):
         v = '1.1' if i % 2 else '1.0'
-        m = cm.random_model(rng, version=v, max_leaves=4, p_wild=0.0, p_head=0.0, p_ref=0.0, allow_all=False)
+        m = cm.random_model(rng, version=v, max_leaves=4, names=('a', 'b'), p_wild=0.0, p_head=0.0, p_ref=0.0, allow_all=False)
         for lf in cm.leaves(m):
             if rng.random() < 0.6:
                 lf['ty'] = rng.choice(['xs:string', 'xs:int'])
